@@ -79,7 +79,7 @@ type followUp struct {
 }
 
 const bodySrc = `
-local rec, res, res2, pcall, cowrap, load, rcontext, tostring, next, getmetatable, rawequal, pack, unpack, type, fread, ioread, filemt, setmetatable = ...
+local rec, res, res2, pcall, cowrap, load, rcontext, tostring, next, getmetatable, rawequal, pack, unpack, type, fread, ioread, filemt, setmetatable, callctx, error = ...
 local function id(...) return ... end
 local function body(sp, probe, f, tgt, w1, ...)
   local mt0
@@ -105,6 +105,16 @@ local function body(sp, probe, f, tgt, w1, ...)
   elseif sp == 6 then call = function(...) return id(cowrap(function(...) return id(f(...)) end)(...)) end
   elseif sp == 7 then call = function(...) return id(cowrap(f)(...)) end
   elseif sp == 8 then call = load("return f(...)", "=c08", "t", {f = f})
+  elseif sp == 10 then
+    -- inside a nested context with a hard limit of its own: the flags of the
+    -- enclosing context stay required (plus cpusafe, implied by the limit)
+    call = function(...)
+      local r = pack(callctx({kill = {cpu = 100000000}}, f, ...))
+      local st = r[1].status
+      if st == "error" then error(r[2], 0) end
+      if st ~= "done" then error("nested context ended " .. tostring(st), 0) end
+      return unpack(r, 2, r.n)
+    end
   end
   rec("B", tostring(rcontext()))
   local r
@@ -250,7 +260,7 @@ func (mc *machine) prepare(required rt.ComplianceFlags) {
 	out, err := mc.hostCallN(rt.FunctionValue(clos),
 		rt.FunctionValue(rec), rt.FunctionValue(res), rt.FunctionValue(res2), mc.global("pcall"), mc.global("coroutine.wrap"), mc.global("load"),
 		mc.global("runtime.context"), mc.global("tostring"), mc.global("next"), mc.global("getmetatable"), mc.global("rawequal"),
-		mc.global("table.pack"), mc.global("table.unpack"), mc.global("type"), fread, mc.global("io.read"), filemt, mc.global("setmetatable"))
+		mc.global("table.pack"), mc.global("table.unpack"), mc.global("type"), fread, mc.global("io.read"), filemt, mc.global("setmetatable"), mc.global("runtime.callcontext"), mc.global("error"))
 	must(err)
 	mc.body, mc.cbFn = out[0], out[1]
 
